@@ -37,6 +37,15 @@ type pathLine struct {
 
 func canonPath(c []string) string { return "/" + strings.Join(c, "/") }
 
+func forEachLine(lines [][]byte, order []int, f func([]byte) error) error {
+	for _, i := range order {
+		if err := f(lines[i]); err != nil {
+			return err
+		}
+	}
+	return nil
+}
+
 func PathEngine(args []string) {
 	fl := flag.NewFlagSet("path", flag.ExitOnError)
 	vec := fl.String("vectors", "", "ndjson from PathRes.tla")
@@ -45,7 +54,25 @@ func PathEngine(args []string) {
 	res := hx.NewResult()
 	defer res.Write(*out)
 	n := 0
+	// the helpers are pure functions: the answer for an input may not depend on what was asked before.  All vectors
+	// are therefore evaluated twice, the second time in reverse order.
+	var lines [][]byte
 	err := hx.ReadNDJSON(*vec, func(b []byte) error {
+		lines = append(lines, append([]byte{}, b...))
+		return nil
+	})
+	if err != nil {
+		res.Set("error", err.Error())
+		return
+	}
+	order := make([]int, 0, 2*len(lines))
+	for i := range lines {
+		order = append(order, i)
+	}
+	for i := len(lines) - 1; i >= 0; i-- {
+		order = append(order, i)
+	}
+	err = forEachLine(lines, order, func(b []byte) error {
 		var l pathLine
 		if err := json.Unmarshal(b, &l); err != nil {
 			return err
@@ -141,5 +168,5 @@ func PathEngine(args []string) {
 		res.Set("error", err.Error())
 	}
 	res.Evaluations = n
-	res.Distinct = n
+	res.Distinct = n / 2
 }
